@@ -9,7 +9,7 @@ set_option linter.unusedVariables false
 namespace MRB
 
 /-- Every constructor followed by a split yields a state related to the fresh specification state. -/
-theorem rel_init (slots : List Nat) (hasW heap owned : Bool) (hlen : 1 ≤ slots.length) :
+theorem rel_init (slots : List Nat) (hasW heap owned : Bool) (hlen : 1 ≤ slots.length) (hlt : slots.length < 2 ^ 63) :
     Rel (St.init slots hasW heap owned) (Sp.init slots.length hasW) :=
   { len_pos := hlen, len_eq := rfl, slots_len := rfl, hasW := rfl,
     idxP := by simp [St.init, Sp.init], idxW := by simp [St.init, Sp.init], idxC := by simp [St.init, Sp.init],
@@ -19,7 +19,7 @@ theorem rel_init (slots : List Nat) (hasW heap owned : Bool) (hlen : 1 ≤ slots
     eqP := fun _ => rfl, eqW := fun _ => rfl, eqC := fun _ => rfl,
     ordP := Nat.zero_le _, ordW := fun _ => Nat.le_refl _, ordC := by simp [Sp.init],
     caP := Nat.zero_le _, caW := fun _ => Nat.zero_le _, caC := Nat.zero_le _,
-    hist_len := Nat.zero_le _, content := fun q _ hq => absurd hq (Nat.not_lt_zero _), mask_len := rfl }
+    hist_len := Nat.zero_le _, content := fun q _ hq => absurd hq (Nat.not_lt_zero _), mask_len := rfl, len_lt := hlt }
 
 /-- A history all of whose operations respect the contract at the moment they are issued. -/
 def AllowedRun : St → Sp → List Op → Prop
@@ -53,13 +53,13 @@ theorem run_refines {s : St} {a : Sp} (h : Rel s a) (ops : List Op) (hal : Allow
 
 /-- States reachable by contract-respecting histories from a fresh split. -/
 inductive Reach : St → Sp → Prop
-  | init (slots : List Nat) (hasW heap owned : Bool) (hlen : 1 ≤ slots.length) :
+  | init (slots : List Nat) (hasW heap owned : Bool) (hlen : 1 ≤ slots.length) (hlt : slots.length < 2 ^ 63) :
       Reach (St.init slots hasW heap owned) (Sp.init slots.length hasW)
   | step {s a} (op : Op) : Reach s a → Allowed s a op → Reach (step s op).1 (a.step op).1
 
 theorem Reach.rel {s : St} {a : Sp} (r : Reach s a) : Rel s a := by
   induction r with
-  | init slots hasW heap owned hlen => exact rel_init slots hasW heap owned hlen
+  | init slots hasW heap owned hlen hlt => exact rel_init slots hasW heap owned hlen hlt
   | step op _ hal ih => exact (step_refines ih op hal).1
 
 /-! ### first in, first out -/
